@@ -81,6 +81,15 @@ type Transport struct {
 
 func NewTransport(name string) *Transport { return &Transport{Name: name} }
 
+// payloadRead records (race mode) that the transport reads the bytes it is given.
+func payloadRead(method string, bufs ...[]byte) {
+	for _, b := range bufs {
+		if len(b) > 0 {
+			vsched.Plain(&b[0], "slice contents|Transport."+method+" (reads the payload)|mock", false)
+		}
+	}
+}
+
 func (m *Transport) plainW(method string) {
 	if m.UnsafeWriteSide {
 		vsched.Plain(&m.wstate, "transport(write-buffered wrapper state)|Transport."+method+"|mock", true)
@@ -226,6 +235,7 @@ func (m *Transport) writeFault() error {
 func (m *Transport) Write(p []byte) (int, error) {
 	vsched.Op("T.Write", m.o(), rw, func() bool { return !m.Stalled || m.IsClosed })
 	m.plainW("Write")
+	payloadRead("Write", p)
 	if err := m.writeFault(); err != nil {
 		m.ev('W', append([]byte(nil), p...), 1, true)
 		return 0, err
@@ -238,6 +248,7 @@ func (m *Transport) Write(p []byte) (int, error) {
 func (m *Transport) Writev(b transport.Buffers) (int64, error) {
 	vsched.Op("T.Writev", m.o(), rw, func() bool { return !m.Stalled || m.IsClosed })
 	m.plainW("Writev")
+	payloadRead("Writev", b...)
 	var data []byte
 	for _, x := range b {
 		data = append(data, x...)
